@@ -38,7 +38,8 @@ def xor_cases(r, ctx):
     while not ctx.expired():
         i += 1
         data, p, key, form = codecgen.c13_xor_case(r)
-        case = {"kind": "xor", "data": runner.hx(data), "payload": runner.hx(p), "key": key, "form": form}
+        case = {"kind": "xor", "data": runner.hx(data), "payload": runner.hx(p), "key": key, "form": form,
+                "decoy_key": (r.randrange(1, 256) if r.random() < 0.5 else None)}
         if not ctx.begin(case):
             continue
         judge_xor(data, p, key, form, ctx, case)
@@ -50,6 +51,22 @@ def judge_xor(data, p, key, form, ctx, case):
     h, _ = cc.harnesses()
     ctx.evaluated()
     ctx.count("xor_cases")
+    if case.get("decoy_key") is not None:
+        # history aimed at state keyed on object identity: a buffer of the same length stating ANOTHER key is scanned and
+        # released, then the real input is created at the address that was just freed
+        import gc
+        hexdata = case["data"]
+        stmt = b" -bxor %d " % case["decoy_key"]
+        decoy = (stmt + b"z" * len(data))[: len(data)]
+        data = None
+        try:
+            h.scan(decoy)
+        except Exception:  # noqa: BLE001
+            pass
+        decoy = None
+        gc.collect()
+        data = bytes.fromhex(hexdata)
+        ctx.count("xor_cases_after_decoy")
     try:
         root = h.scan(data)
     except Exception as e:  # noqa: BLE001
